@@ -13,7 +13,8 @@ Definition m_add_rows_mem (rows : list row) := (w_add_rows H_enc (w_init) rows).
 Definition m_add_rows_big (rows : list row) := (b_add_rows H_enc (b_init) rows).1.
 
 Definition m_execute_q := execute_q H_enc.
+Definition m_damage_store := damage_store.
 
-Extraction "model.ml" lru_observe m_execute_q
+Extraction "model.ml" lru_observe m_execute_q m_damage_store
   m_build_store m_open_index m_execute m_get_schema m_add_rows_mem m_add_rows_big
   spec_execute spec_schema.
